@@ -33,7 +33,13 @@ type LoggerWrapper struct {
 // It implements the io.Writer interface, allowing LoggerWrapper to be
 // used anywhere an io.Writer is expected.
 func (m *LoggerWrapper) Write(b []byte) (n int, err error) {
-	m.logger.Write(b)
+	if m.logger != nil {
+		m.logger.Write(b)
+	} else {
+		// No configuration is bound to this name (yet): use the
+		// built-in console logger, like tags without a logger do.
+		defaultLogger.Write(b)
+	}
 	return len(b), nil
 }
 
